@@ -84,6 +84,62 @@ def hook_list_rule(ctx):
     ctx.ok("hook-order-preserved", "who-may-write (order-preserving operations)", "-", "%d operations on the hook list, all order preserving" % n_ops)
 
 
+def engine_fire_rule(ctx):
+    """Shared by C07 and C13: Engine::firePrekillHook decides which hook runs for a victim - it walks the reverse-ordered list from its back
+    (drop-in hooks newest first, then base hooks in configuration order), fires the first hook whose patterns match, returns its
+    invocation.  C13's 'drop-in prekill hooks take priority newest-first over base hooks' is this walk."""
+    P = ctx.prog
+    ctx.anchor(ctx.fn1('Oomd::Engine::Engine::firePrekillHook'), 'cgroup_ctx')
+    fph = ctx.fn1("Oomd::Engine::Engine::firePrekillHook")
+    lh = loops(fph)
+    sw = search_walks(fph)
+    if True:
+        wk = None
+        if not ((len(lh) == 1 and not sw) or (not lh and len(sw) == 1)):
+            # no walk to judge the order by (a 'loop' whose body always returns is not a loop): the fire sites are still judged below
+            ctx.violation("firePrekillHook:loop", "anchor", fph.loc(), "expected one loop (or one std::find_if) over the hook list")
+        else:
+            hdr = loop_header(fph, lh[0]) if lh else fph.text(sw[0]["call"])
+            wk = loop_walk(fph, lh[0]) if lh else sw[0]
+            ctx.check(wk is not None and wk["dir"] == "backward" and wk["container"] == "this->prekill_hooks_in_reverse_order_",
+                      "firePrekillHook:reverse-traversal", "loop-shape", fph.loc(lh[0]["stmt"]) if lh else fph.loc(sw[0]["call"]),
+                      "the reverse-ordered list is walked from its back", "walk is " + hdr[:120])
+        fl = Flow(P, fph, cg=ctx.cg)
+        fire = fph.calls("PrekillHook::fire")
+        ctx.counters["engine_fire_sites"] = len(fire)
+        ctx.floor("engine_fire_sites", 1, "PrekillHook::fire call in Engine::firePrekillHook")
+        for i in fire:
+            g = fl.guards(i)
+            ctx.check(has_fact(g, True, "canRunOnCgroup(cgroup_ctx)"), "fire-only-matching-hook", "guarded_by", fph.loc(i),
+                      "only a hook whose patterns match the victim fires", "fire() not guarded by canRunOnCgroup(victim)")
+            par = fph.parent.get(i)
+            while par is not None and fph.nodes[par]["k"] in ("cast", "construct", "other"):
+                par = fph.parent.get(par)
+            ctx.check(par is not None and fph.nodes[par]["k"] == "return", "first-match-wins", "return_table", fph.loc(i),
+                      "the first matching hook's invocation is returned (no later hook fires)",
+                      "fire() result is not returned immediately: a second hook could fire")
+            a = [fph.text(x) for x in fph.nodes[i]["args"]]
+            ctx.check(a[0] == "cgroup_ctx" and "getActionContext()" in a[1], "fire-args", "provenance", fph.loc(i),
+                      "hook receives the victim and the action context", "hook receives " + str(a))
+            # the hook fired is the one that was tested, and it is the current element's hook (directly or through a local alias)
+            arrow = lambda t_: re.sub(r"\(\*(\w+)\)\.", r"\1->", t_)          # (*it).x and it->x are the same expression
+            fired = arrow(re.sub(r"(->|\.)$", "", fph.text(fph.nodes[i]["recv"])))
+            tested = [arrow(re.sub(r"(->|\.)canRunOnCgroup\(.*$", "", k)) for k, p in g if "canRunOnCgroup(" in k and p is True]
+
+            def of_element(t):
+                if wk is None:
+                    return False
+                if re.match(r"^\w+$", t):
+                    init_, v_ = local_init(fph, t, must=False)
+                    if v_ is None or init_ is None or init_ < 0 or local_writes(fph, t, must=False):
+                        return False
+                    t = fph.text(init_)
+                m_ = re.match(wk["elem"], t)
+                return m_ is not None and re.match(r"^(\.|->)?hook$", t[m_.end():]) is not None
+            fired_h = arrow(re.sub(r"(->|\.)$", "", hoist_text(fph, fph.nodes[i]["recv"], P)))
+            ctx.check(bool(tested) and all(t_ in (fired, fired_h) for t_ in tested) and (of_element(fired) or of_element(fired_h)),
+                      "fire-the-tested-hook", "provenance", fph.loc(i), "the hook fired is the one tested", "fires another hook than the one tested")
+
 def run(ctx):
     from .C13 import handoff_queue_fifo
     handoff_queue_fifo(ctx)
@@ -342,56 +398,7 @@ def run(ctx):
                   "a fresh kill cycle starts only with no outstanding invocation",
                   "a fresh kill cycle can start while a hook invocation is outstanding")
 
-    # ------------------------------------------------ priority order
-    fph = ctx.fn1("Oomd::Engine::Engine::firePrekillHook")
-    lh = loops(fph)
-    sw = search_walks(fph)
-    if True:
-        wk = None
-        if not ((len(lh) == 1 and not sw) or (not lh and len(sw) == 1)):
-            # no walk to judge the order by (a 'loop' whose body always returns is not a loop): the fire sites are still judged below
-            ctx.violation("firePrekillHook:loop", "anchor", fph.loc(), "expected one loop (or one std::find_if) over the hook list")
-        else:
-            hdr = loop_header(fph, lh[0]) if lh else fph.text(sw[0]["call"])
-            wk = loop_walk(fph, lh[0]) if lh else sw[0]
-            ctx.check(wk is not None and wk["dir"] == "backward" and wk["container"] == "this->prekill_hooks_in_reverse_order_",
-                      "firePrekillHook:reverse-traversal", "loop-shape", fph.loc(lh[0]["stmt"]) if lh else fph.loc(sw[0]["call"]),
-                      "the reverse-ordered list is walked from its back", "walk is " + hdr[:120])
-        fl = Flow(P, fph, cg=ctx.cg)
-        fire = fph.calls("PrekillHook::fire")
-        ctx.counters["engine_fire_sites"] = len(fire)
-        ctx.floor("engine_fire_sites", 1, "PrekillHook::fire call in Engine::firePrekillHook")
-        for i in fire:
-            g = fl.guards(i)
-            ctx.check(has_fact(g, True, "canRunOnCgroup(cgroup_ctx)"), "fire-only-matching-hook", "guarded_by", fph.loc(i),
-                      "only a hook whose patterns match the victim fires", "fire() not guarded by canRunOnCgroup(victim)")
-            par = fph.parent.get(i)
-            while par is not None and fph.nodes[par]["k"] in ("cast", "construct", "other"):
-                par = fph.parent.get(par)
-            ctx.check(par is not None and fph.nodes[par]["k"] == "return", "first-match-wins", "return_table", fph.loc(i),
-                      "the first matching hook's invocation is returned (no later hook fires)",
-                      "fire() result is not returned immediately: a second hook could fire")
-            a = [fph.text(x) for x in fph.nodes[i]["args"]]
-            ctx.check(a[0] == "cgroup_ctx" and "getActionContext()" in a[1], "fire-args", "provenance", fph.loc(i),
-                      "hook receives the victim and the action context", "hook receives " + str(a))
-            # the hook fired is the one that was tested, and it is the current element's hook (directly or through a local alias)
-            arrow = lambda t_: re.sub(r"\(\*(\w+)\)\.", r"\1->", t_)          # (*it).x and it->x are the same expression
-            fired = arrow(re.sub(r"(->|\.)$", "", fph.text(fph.nodes[i]["recv"])))
-            tested = [arrow(re.sub(r"(->|\.)canRunOnCgroup\(.*$", "", k)) for k, p in g if "canRunOnCgroup(" in k and p is True]
-
-            def of_element(t):
-                if wk is None:
-                    return False
-                if re.match(r"^\w+$", t):
-                    init_, v_ = local_init(fph, t, must=False)
-                    if v_ is None or init_ is None or init_ < 0 or local_writes(fph, t, must=False):
-                        return False
-                    t = fph.text(init_)
-                m_ = re.match(wk["elem"], t)
-                return m_ is not None and re.match(r"^(\.|->)?hook$", t[m_.end():]) is not None
-            fired_h = arrow(re.sub(r"(->|\.)$", "", hoist_text(fph, fph.nodes[i]["recv"], P)))
-            ctx.check(bool(tested) and all(t_ in (fired, fired_h) for t_ in tested) and (of_element(fired) or of_element(fired_h)),
-                      "fire-the-tested-hook", "provenance", fph.loc(i), "the hook fired is the one tested", "fires another hook than the one tested")
+    engine_fire_rule(ctx)
     ohk = ctx.fn1("Oomd::OomdContext::firePrekillHook")
     calls = [i for i in ohk.calls() if ohk.nodes[i].get("op") == "()" and "prekill_hook_handler_" in ohk.text(ohk.nodes[i].get("recv", -1))]
     ctx.check(len(calls) == 1 and ohk.text(ohk.nodes[calls[0]]["args"][0]) == "cgroup_ctx", "context-forwards-to-handler", "provenance",
